@@ -723,6 +723,14 @@ def check_c2(ctx, impl, c1_cases, c1_results, cli_cases=()):
     for c in picked[: ctx.pick(14, 60)]:
         cfgs.append({"seed": c["seed"], "params": {**c["params"], "p_identifier": rng.choice([0.005, 0.5, 1.0]),
                                                    "p_correct_payload_format": rng.choice([0.1, 0.9])}})
+    # models whose level sets were walked in an order that is neither sorted nor insertion order (colliding session ids):
+    # where a dependence of the set layout on anything but the ints themselves would show between processes
+    coll = [c for c, r in zip(c1_cases, c1_results)
+            if c["label"] == "seeded:colliding-sessions" and r["error"] is None and r["n_floats"] < 20000
+            and any(o != sorted(o) for o in r["orders"])]
+    rng.shuffle(coll)
+    for c in coll[: ctx.pick(10, 40)]:
+        cfgs.append({"seed": c["seed"], "params": dict(c["params"])})
     # the same through the command line: real parser -> RngVirtualECUConfig -> RngVirtualECU._server()
     for _lab, argv in [x for x in cli_cases]:
         cfgs.append({"argv": argv})
